@@ -86,6 +86,7 @@ class Assemble:
         return st.fixed_dictionaries({
             "dom": domain_strategy(tier, max2=5, max3=3),
             "kind": st.sampled_from(["general", "general", "stiffness", "mass", "poisson"]),
+            "int_input": st.sampled_from([False, False, False, True]),   # integer-typed input state (np.int64)
             "ndof": st.integers(1, 3), "cplx_el": st.booleans(),
             "plane": st.sampled_from(["strain", "stress"]),
             "bc": bc_strategy(), "bcdiag": st.sampled_from([None, 0.0, 1.0, 2.5]),
@@ -122,6 +123,8 @@ class Assemble:
             kw["add_constant"] = mt(sps.random(n, n, density=min(1.0, 3.0 / n), random_state=np.random.RandomState(
                 int(rng.integers(0, 2 ** 31))), format="csc"))
         x = sig(rng.uniform(0.1, 1.0, dom.nel), "x")
+        if o.get("int_input"):
+            x = sig(rng.integers(1, 4, dom.nel).astype(np.int64), "x")
         if kind == "general":
             m = dom.elemnodes * ndof
             cplx = o["cplx_el"]
@@ -143,6 +146,8 @@ class Assemble:
             k = 3 if o["seed"] == "dyad_multi" else 1
             return [pym.DyadCarrier([rnd(r, (n,), c) for _ in range(k)], [rnd(r, (n,), c) for _ in range(k)])]
         lab = [f"assemble:{kind}", f"dim{dom.dim}", f"bc:{o['bc']}", f"seed:{o['seed']}", f"fmt:{o['fmt']}"]
+        if o.get("int_input"):
+            lab.append("int_input")
         if o["const"]:
             lab.append("add_constant")
         return Built(mod, mod.sig_in, mod.sig_out, [rnd(rng, (dom.nel,))], seeds, linear=True, labels=lab, tol=1e-10)
@@ -156,6 +161,7 @@ class ElemOp:
         return st.fixed_dictionaries({
             "dom": domain_strategy(tier, max2=5, max3=3),
             "kind": st.sampled_from(["general", "general", "strain", "strain_novoigt", "stress", "average"]),
+            "int_input": st.sampled_from([False, False, False, True]),   # integer-typed input state (np.int64)
             "ndof": st.integers(1, 3), "shape": st.sampled_from(["m", "pm", "pqm", "node", "pnode"]),
             "plane": st.sampled_from(["strain", "stress"]),
         })
@@ -183,7 +189,11 @@ class ElemOp:
         else:
             u = sig(rnd(rng, (dom.nnodes * ndof,)), "v")
             mod = pym.ElementAverage(u, sig(None, "ve"), dom)
-        return Built(mod, mod.sig_in, mod.sig_out, [like(rng, u.state)], default_seeds(), linear=True, labels=lab,
+        vdir = like(rng, u.state)
+        if o.get("int_input"):
+            u.state = rng.integers(-3, 4, np.shape(u.state)).astype(np.int64)
+            lab.append("int_input")
+        return Built(mod, mod.sig_in, mod.sig_out, [vdir], default_seeds(), linear=True, labels=lab,
                      tol=1e-10)
 
 
@@ -489,7 +499,7 @@ class EinSumR:
 class ConcatR:
     @staticmethod
     def opts(tier):
-        kind = st.sampled_from(["py", "np0", "arr0d", "n1", "n", "n5"])
+        kind = st.sampled_from(["py", "np0", "arr0d", "n1", "n", "n5", "ni"])
         return st.fixed_dictionaries({"kinds": st.lists(kind, min_size=1, max_size=4)})
 
     @staticmethod
@@ -503,6 +513,8 @@ class ConcatR:
                 v, d = np.float64(rng.standard_normal()), float(rng.standard_normal())
             elif k == "arr0d":
                 v, d = np.array(rng.standard_normal()), np.array(rng.standard_normal())
+            elif k == "ni":
+                v, d = rng.integers(-3, 4, 3).astype(np.int64), rng.standard_normal(3)
             else:
                 nn = {"n1": 1, "n": 3, "n5": 5}[k]
                 v, d = rng.standard_normal(nn), rng.standard_normal(nn)
